@@ -311,9 +311,6 @@ func init() {
 		}
 		return z
 	})
-	reg("time.Since time.Until", func(in *Interp, fr *frame, fn *ssa.Function, args []Value) Value {
-		return ConstBV(64, 0)
-	})
 
 	// ---------------- fmt / errors ----------------
 	reg("fmt.Errorf", intrErrorf)
